@@ -709,6 +709,118 @@ func randOps(g *hx.Gen, n int, special bool) string {
 
 func c19Gen(g *hx.Gen) {
 	gmp := runtime.GOMAXPROCS(0)
+	// random configurations and schedules, one producer and one collector
+	randPF := func(n int) {
+		for k := 0; k < n && !g.Done(); k++ {
+			t := g.Pick(1, 2, 2, 3, 3, 4)
+			nops := g.Pick(0, 1, t-1, t, t+1, t+3, 2*t+1)
+			if nops < 0 {
+				nops = 0
+			}
+			letters := []byte{'p', 'c', 's', 'w'}
+			weights := []int{3, 3, 0, 1}
+			if g.Chance(0.15) {
+				weights[2] = 1
+			}
+			for i := 0; i < t; i++ {
+				letters = append(letters, byte('0'+i))
+				weights = append(weights, 3)
+			}
+			g.Casef("pf %d %d %d %s %s %s", t, g.Pick(0, 0, 1, 2, 5), g.Pick(1, 1, 2, 4), randOps(g, nops, g.Chance(0.3)),
+				hx.B(g.Chance(0.9)), randSched(g, letters, weights, g.Range(0, 4*(t+nops)+4)))
+		}
+	}
+	randPG := func(n int) {
+		// several producers and collectors: shuffled complete schedules (every actor gets the
+		// steps it needs, in a random order) and random schedules, with and without Stop
+		for k := 0; k < n && !g.Done(); k++ {
+			t := g.Pick(1, 2, 2, 3)
+			nprod := g.Pick(1, 2, 2, 3)
+			ncoll := g.Pick(1, 2, 2, 3)
+			var parts []string
+			total := 0
+			letters := []byte{}
+			counts := []int{}
+			weights := []int{}
+			special := g.Chance(0.3)
+			for pi := 0; pi < nprod; pi++ {
+				cnt := g.Pick(0, 1, 1, 2, 3)
+				if pi == 0 && g.Chance(0.5) {
+					cnt = g.Pick(0, 1, 2, t+1)
+				}
+				total += cnt
+				parts = append(parts, randOps(g, cnt, special))
+				letters = append(letters, byte('p'+pi))
+				c := cnt
+				if pi == 0 {
+					c++
+				}
+				counts = append(counts, c)
+				weights = append(weights, 3)
+			}
+			for ci := 0; ci < ncoll; ci++ {
+				letters = append(letters, byte('c'+ci))
+				counts = append(counts, g.Range(1, total+1))
+				weights = append(weights, 3)
+			}
+			for i := 0; i < t; i++ {
+				letters = append(letters, byte('0'+i))
+				counts = append(counts, g.Range(2, total+2))
+				weights = append(weights, 3)
+			}
+			letters = append(letters, 'w')
+			counts = append(counts, 1)
+			weights = append(weights, 1)
+			if g.Chance(0.15) {
+				letters = append(letters, 's')
+				counts = append(counts, 1)
+				weights = append(weights, 1)
+			}
+			var sched string
+			if g.Chance(0.5) {
+				sched = shuffleMultiset(g, letters, counts)
+			} else {
+				sched = randSched(g, letters, weights, g.Range(0, 4*(t+total)+4))
+			}
+			if sched == "" {
+				sched = "-"
+			}
+			g.Casef("pg %d %d %d %s %d %s %s", t, g.Pick(0, 0, 1, 2, 5), g.Pick(1, 1, 2, 4), strings.Join(parts, ";"),
+				ncoll, hx.B(g.Chance(0.9)), sched)
+		}
+	}
+	randPP := func(n int) {
+		// all flag combinations, every kind of call (sequential and interleaved histories)
+		callPool := []string{"F1", "F2", "F3", "Fn", "X4.7", "Xn.8", "X5.n", "Xn.n", "R6", "Rn", "B", "W", "W"}
+		for k := 0; k < n && !g.Done(); k++ {
+			fl := fmt.Sprintf("%d%d%d", g.Intn(2), g.Intn(2), g.Intn(2))
+			nc := g.Range(1, 5)
+			var cs []string
+			letters := make([]byte, nc)
+			weights := make([]int, nc)
+			for i := 0; i < nc; i++ {
+				cs = append(cs, callPool[g.Intn(len(callPool))])
+				letters[i] = byte('a' + i)
+				weights[i] = 1
+			}
+			var sched string
+			if g.Chance(0.4) {
+				// sequential history: each call runs to completion in order
+				for i := 0; i < nc; i++ {
+					sched += strings.Repeat(string(letters[i]), 2)
+				}
+			} else {
+				sched = randSched(g, letters, weights, g.Range(0, 2*nc+1))
+			}
+			g.Casef("pp %s %s %s", fl, strings.Join(cs, ","), sched)
+		}
+	}
+	// a first slice of the random forced schedules comes before the enumerations, so that a
+	// widened run (thorough enumerations under a short budget) still reaches them
+	npf, npg, npp := g.Scale(2500, 40000), g.Scale(2500, 50000), g.Scale(3000, 40000)
+	randPP(800)
+	randPG(500)
+	randPF(500)
 	// ---- Processor, forced: every ordering of the workers' start/exit steps and the close
 	for t := 1; t <= 3; t++ {
 		letters := []byte{'p'}
@@ -751,7 +863,7 @@ func c19Gen(g *hx.Gen) {
 	// ---- Promise, forced: all orderings of the take/put steps for small sets of calls
 	// (Fn = Fulfill(nil): a legal call; the message {nil, nil} counts as set)
 	sets := []string{"F1,W", "W,F1", "F1,F2", "F1,W,F2", "W,F1,W", "F1,F2,W", "X2.7,W,F1", "F1,X2.7,W", "W,W,F1", "F1,W,X3.8",
-		"Fn,F1", "Fn,F1,W", "Fn,W,F1", "F1,Fn,W", "Fn,X2.7,W"}
+		"Fn,F1", "Fn,F1,W", "Fn,W,F1", "F1,Fn,W", "Fn,X2.7,W", "W,W,X2.7", "W,X2.7,W"}
 	for _, fl := range []string{"000", "001", "010"} {
 		for _, set := range sets {
 			n := strings.Count(set, ",") + 1
@@ -774,7 +886,7 @@ func c19Gen(g *hx.Gen) {
 	allFlags := []string{"000", "001", "010", "011", "100", "101", "110", "111"}
 	allSets := []string{"F1,B,W", "F1,W,B", "W,B,F1", "B,W,F1", "F1,B,F2", "F1,R2,W", "F1,W,R2", "X2.7,R3,W",
 		"X2.7,Rn,W", "W,F1,Rn", "F1,Rn,F2", "F1,F2,W", "Fn,X5.7,W", "Xn.n,X5.7,W", "X5.n,F1,W", "W,W,B",
-		"Fn,F1,W", "Fn,W,F2", "Fn,Fn,W", "Xn.n,F1,W"}
+		"Fn,F1,W", "Fn,W,F2", "Fn,Fn,W", "Xn.n,F1,W", "W,W,X2.7", "W,W,R3", "W,W,Xn.n"}
 	for _, fl := range allFlags {
 		for _, set := range allSets {
 			multisetPerms([]byte{'a', 'b', 'c'}, []int{2, 2, 2}, func(s string) bool {
@@ -843,110 +955,10 @@ func c19Gen(g *hx.Gen) {
 		mode := g.Pick(0, 0, 1, 1, 2)
 		g.Casef("pu %d %d %d %d %s %d", t, gmp, g.Pick(0, 0, 1, 2, 7, 64), g.Pick(0, 1, 3, 16), randOps(g, nops, g.Chance(0.1)), mode)
 	}
-	// ---- random forced schedules last (they take most of the time)
-	// random configurations and schedules
-	nf := g.Scale(2500, 40000)
-	for k := 0; k < nf && !g.Done(); k++ {
-		t := g.Pick(1, 2, 2, 3, 3, 4)
-		nops := g.Pick(0, 1, t-1, t, t+1, t+3, 2*t+1)
-		if nops < 0 {
-			nops = 0
-		}
-		letters := []byte{'p', 'c', 's', 'w'}
-		weights := []int{3, 3, 0, 1}
-		if g.Chance(0.15) {
-			weights[2] = 1
-		}
-		for i := 0; i < t; i++ {
-			letters = append(letters, byte('0'+i))
-			weights = append(weights, 3)
-		}
-		g.Casef("pf %d %d %d %s %s %s", t, g.Pick(0, 0, 1, 2, 5), g.Pick(1, 1, 2, 4), randOps(g, nops, g.Chance(0.3)),
-			hx.B(g.Chance(0.9)), randSched(g, letters, weights, g.Range(0, 4*(t+nops)+4)))
-	}
-	// several producers and collectors: shuffled complete schedules (every actor gets the
-	// steps it needs, in a random order) and random schedules, with and without Stop
-	npg := g.Scale(2500, 50000)
-	for k := 0; k < npg && !g.Done(); k++ {
-		t := g.Pick(1, 2, 2, 3)
-		nprod := g.Pick(1, 2, 2, 3)
-		ncoll := g.Pick(1, 2, 2, 3)
-		var parts []string
-		total := 0
-		letters := []byte{}
-		counts := []int{}
-		weights := []int{}
-		special := g.Chance(0.3)
-		for pi := 0; pi < nprod; pi++ {
-			n := g.Pick(0, 1, 1, 2, 3)
-			if pi == 0 && g.Chance(0.5) {
-				n = g.Pick(0, 1, 2, t+1)
-			}
-			total += n
-			parts = append(parts, randOps(g, n, special))
-			letters = append(letters, byte('p'+pi))
-			c := n
-			if pi == 0 {
-				c++
-			}
-			counts = append(counts, c)
-			weights = append(weights, 3)
-		}
-		for ci := 0; ci < ncoll; ci++ {
-			letters = append(letters, byte('c'+ci))
-			counts = append(counts, g.Range(1, total+1))
-			weights = append(weights, 3)
-		}
-		for i := 0; i < t; i++ {
-			letters = append(letters, byte('0'+i))
-			counts = append(counts, g.Range(2, total+2))
-			weights = append(weights, 3)
-		}
-		letters = append(letters, 'w')
-		counts = append(counts, 1)
-		weights = append(weights, 1)
-		if g.Chance(0.15) {
-			letters = append(letters, 's')
-			counts = append(counts, 1)
-			weights = append(weights, 1)
-		}
-		var sched string
-		if g.Chance(0.5) {
-			sched = shuffleMultiset(g, letters, counts)
-		} else {
-			sched = randSched(g, letters, weights, g.Range(0, 4*(t+total)+4))
-		}
-		if sched == "" {
-			sched = "-"
-		}
-		g.Casef("pg %d %d %d %s %d %s %s", t, g.Pick(0, 0, 1, 2, 5), g.Pick(1, 1, 2, 4), strings.Join(parts, ";"),
-			ncoll, hx.B(g.Chance(0.9)), sched)
-	}
-	// all flag combinations, every kind of call (sequential and interleaved histories)
-	np := g.Scale(3000, 40000)
-	callPool := []string{"F1", "F2", "F3", "Fn", "X4.7", "Xn.8", "X5.n", "Xn.n", "R6", "Rn", "B", "W", "W"}
-	for k := 0; k < np && !g.Done(); k++ {
-		fl := fmt.Sprintf("%d%d%d", g.Intn(2), g.Intn(2), g.Intn(2))
-		n := g.Range(1, 5)
-		var cs []string
-		letters := make([]byte, n)
-		weights := make([]int, n)
-		for i := 0; i < n; i++ {
-			cs = append(cs, callPool[g.Intn(len(callPool))])
-			letters[i] = byte('a' + i)
-			weights[i] = 1
-		}
-		var sched string
-		if g.Chance(0.4) {
-			// sequential history: each call runs to completion in order
-			for i := 0; i < n; i++ {
-				sched += strings.Repeat(string(letters[i]), 2)
-			}
-		} else {
-			sched = randSched(g, letters, weights, g.Range(0, 2*n+1))
-		}
-		g.Casef("pp %s %s %s", fl, strings.Join(cs, ","), sched)
-	}
+	// ---- the rest of the random forced schedules last (they take most of the time)
+	randPP(npp - 800)
+	randPG(npg - 500)
+	randPF(npf - 500)
 }
 
 func shuffleMultiset(g *hx.Gen, letters []byte, counts []int) string {
